@@ -228,8 +228,105 @@ def run(ctx):
             ctx.violation('summary:' + mt['kind'], 'posterior summaries: ' + bad, replay=mt['rp'])
         else:
             ctx.validated()
+    multimode_cases(ctx)
     import shutil
     shutil.rmtree(os.path.join(C.CACHE, 'mn_%d' % os.getpid()), ignore_errors=True)
+
+
+def multimode_cases(ctx):
+    """MultiNest with search_multi_modes: one solution per mode, each summarised from its OWN samples"""
+    import contextlib
+    import io
+    import pymultinest
+    from taurex.optimizer import MultiNestOptimizer
+    from taurex.core.priors import Uniform, LogUniform
+    from taurex.util.util import quantile_corner
+    rng = ctx.rng
+    for i in range(ctx.n(4, 30)):
+        spec = setup(rng)
+        model = tmodel.build(spec)
+        obs = make_obs(rng, model)
+        g1 = spec['gases'][0]
+        cand = [('planet_radius', 'lin', (spec['planet_radius'] * 0.8, spec['planet_radius'] * 1.2)),
+                ('T', 'lin', (600.0, 1800.0)), (g1, 'log', (-8.0, -2.0))]
+        fit = rng.sample(cand, rng.randint(1, 3))
+        mdir = os.path.join(C.CACHE, 'mn_%d' % os.getpid())
+        os.makedirs(mdir, exist_ok=True)
+        opt = MultiNestOptimizer(multi_nest_path=mdir, observed=obs, model=model, search_multi_modes=True)
+        for n in list(model.fittingParameters):
+            opt.disable_fit(n)
+        for name, k, b in fit:
+            opt.enable_fit(name)
+            opt.set_prior(name, (LogUniform if k == 'log' else Uniform)(bounds=list(b)))
+        opt.compile_params()
+        order = [n.replace('log_', '') for n in opt.fit_names]
+        fd = {f[0]: f for f in fit}
+        ndim = len(order)
+        nmodes = rng.choice([2, 2, 3])
+        equal = rng.random() < 0.4
+        sizes = [rng.randint(2, 9)] * nmodes if equal else [rng.randint(2, 9) for _ in range(nmodes)]
+        modes = [np.array([[rng.uniform(*fd[n][2]) for n in order] for _ in range(sz)]) for sz in sizes]
+        weights = [np.array([rng.random() + 1e-3 for _ in range(sz)]) for sz in sizes]
+        tot = sum(w.sum() for w in weights)
+        weights = [w / tot for w in weights]
+        stats = {'global evidence': -12.5, 'global evidence error': 0.3, 'modes': []}
+        for m_, w_ in zip(modes, weights):
+            stats['modes'].append({'local log-evidence': -12.5 - len(stats['modes']), 'local log-evidence error': 0.3,
+                                   'maximum a posterior': m_[int(np.argmax(w_))].tolist(),
+                                   'mean': np.average(m_, weights=w_, axis=0).tolist(), 'sigma': [0.1] * ndim})
+        rp = dict(kind='multinest-modes', spec=spec, fit=order, modes=modes, weights=weights)
+
+        def hook(kw):
+            base = kw['outputfiles_basename']
+            allm, allw = np.vstack(modes), np.concatenate(weights)
+            np.savetxt(base + '.txt', np.column_stack([allw, np.zeros(len(allw)), allm]))
+            with open(base + 'post_separate.dat', 'w') as fh:
+                for m_, w_ in zip(modes, weights):
+                    fh.write('\n\n')
+                    for row, ww in zip(m_, w_):
+                        fh.write(' '.join(repr(float(x)) for x in [ww, 0.0] + list(row)) + '\n')
+        pymultinest.HOOK, pymultinest.STATS = hook, stats
+        try:
+            with np.errstate(all='ignore'), contextlib.redirect_stdout(io.StringIO()):
+                sol = opt.fit()
+        except Exception as e:
+            import traceback
+            ctx.violation('fit-raises:multinest-modes', 'Optimizer.fit() raised %r for %d modes of sizes %r\n%s'
+                          % (e, nmodes, sizes, traceback.format_exc()[-700:]), replay=rp)
+            continue
+        finally:
+            pymultinest.HOOK, pymultinest.STATS = None, None
+        ctx.case(('modes', nmodes, tuple(sizes), float(modes[0][0][0])), nontrivial=True,
+                 sample=dict(sampler='multinest, %d modes' % nmodes, samples_per_mode=sizes))
+        ctx.count('multimode:%d' % nmodes)
+        bad = None
+        for j, (m_, w_) in enumerate(zip(modes, weights)):
+            sj = sol.get('solution%d' % j)
+            if sj is None:
+                bad = 'solution%d is missing (solutions: %r)' % (j, [k for k in sol if k.startswith('solution')])
+                break
+            if not (np.array_equal(np.asarray(sj['tracedata']), m_) and np.allclose(np.asarray(sj['weights']).ravel(), w_, rtol=1e-15)):
+                bad = 'solution%d does not hold the samples / weights of mode %d' % (j, j)
+                break
+            for a, nm in enumerate(opt.fit_names):
+                p = sj['fit_params'][nm]
+                q = quantile_corner(m_[:, a], [0.16, 0.5, 0.84], weights=w_)
+                if not np.allclose([p['value'], p['sigma_m'], p['sigma_p']], [q[1], q[1] - q[0], q[2] - q[1]], rtol=1e-12, atol=1e-15):
+                    bad = 'solution%d %s: value / errors are not the weighted quantiles of the mode\'s own samples' % (j, nm)
+                if not np.isclose(p['nest_map'], stats['modes'][j]['maximum a posterior'][a]):
+                    bad = 'solution%d %s: MAP %r is not that of mode %d (%r)' % (j, nm, p['nest_map'], j, stats['modes'][j]['maximum a posterior'][a])
+            # the stored spectrum is the forward model at THIS mode's MAP
+            model2 = tmodel.build(spec)
+            for nm_, v in zip(order, stats['modes'][j]['maximum a posterior']):
+                model2[nm_] = 10 ** v if fd[nm_][1] == 'log' else v
+            with np.errstate(all='ignore'):
+                r = model2.model(cutoff_grid=False)
+            if not np.allclose(sj['Spectra']['native_spectrum'], r[1], rtol=1e-10):
+                bad = 'solution%d: stored spectrum is not the forward model at the MAP of mode %d' % (j, j)
+        if bad:
+            ctx.violation('modes:' + bad.split(' ')[0].rstrip('0123456789') , 'multi-modal summaries: ' + bad, replay=rp)
+        else:
+            ctx.validated()
 
 
 def replay(ctx, obj):
